@@ -48,6 +48,14 @@ class BadIter:
         raise RuntimeError('no iteration')
 
 
+class Tag(str):
+    """a tagged string: str subclass whose instances have a __dict__"""
+
+
+class Num(int):
+    pass
+
+
 class Bag(dict):
     """a user mapping: dict subclass WITHOUT __slots__, so instances have a __dict__ as well"""
 
@@ -74,8 +82,10 @@ SCALARS = (int, str, bytes, float, type(None))
 
 
 def children(v):
-    if isinstance(v, SCALARS):
+    if type(v) in SCALARS or (isinstance(v, SCALARS) and not hasattr(v, '__dict__')):
         return []
+    if isinstance(v, SCALARS):
+        return list(v.__dict__.values())      # an instance of a str / int subclass that carries attributes is an object
     if isinstance(v, dict):
         out = []
         for k in list(dict.keys(v)):
@@ -146,8 +156,8 @@ def same(a, b, depth):
     return a is b
 
 
-NSHAPE = 14
-SHAPES = ['tree', 'dag', 'rootcycle', 'twocycle', 'listcycle', 'obj', 'mixed', 'badget', 'odict', 'scalar', 'empty', 'baditer', 'usermap', 'stdmaps']
+NSHAPE = 15
+SHAPES = ['tree', 'dag', 'rootcycle', 'twocycle', 'listcycle', 'obj', 'mixed', 'badget', 'odict', 'scalar', 'empty', 'baditer', 'usermap', 'stdmaps', 'tagged']
 
 
 def graph(shape, a, b):
@@ -189,6 +199,15 @@ def graph(shape, a, b):
         r = Bag(k=a, a=inner, l=[Bag(k=b)])
         r.k = 'attribute k'
         return r
+    if shape == 14:
+        # tokens: instances of str / int subclasses carrying attributes (reached below the start value)
+        tok = Tag('tok')
+        tok.k = a
+        tok.sub = {'k': b}
+        num = Num(5)
+        num.k = b
+        num.a = Tag('inner')
+        return FuelDict({'k': tok, 'a': [num, 'plain'], 'z': Tag('bare')})
     if shape == 13:
         import collections
         dd = collections.defaultdict(None)            # no default_factory: a read never inserts
@@ -309,21 +328,38 @@ def star_mutate(op: int, nw: int, final: int, style: int, s0: int, s1: int, s2: 
     from glom import Assign, Delete
     from harness.mutlib import ragged, ragged_path
     start()
-    op, nw, final, style = concretize(op, 0, 1), concretize(nw, 1, 3), concretize(final, 0, 2), concretize(style, 0, 2)
+    op, nw, final, style = concretize(op, 0, 2), concretize(nw, 1, 3), concretize(final, 0, 2), concretize(style, 0, 2)
     s0, s1, s2 = concretize(s0, 0, 2), concretize(s1, 0, 2), concretize(s2, 0, 2)
     if OUT in (op, nw, final, style, s0, s1, s2):
         return True
     t, leaves = ragged(nw, [s0, s1, s2], final, a)
+    holes = []
+    if op == 2:
+        # Delete(..., ignore_missing=True): every second entry (starting with the FIRST) lacks the element -- the entries
+        # that have it are still all served, each independently of the others
+        for i, lf in enumerate(leaves):
+            if i % 2 == 0:
+                holes.append(i)
+                if final == 0:
+                    del lf['v']
+                elif final == 1:
+                    del lf[:]
+                else:
+                    del lf.v
     before = [copy.deepcopy(l) for l in leaves]
     path = ragged_path(nw, final, style)
-    got = run(lambda: glom(t, Assign(path, v) if op == 0 else Delete(path), glom_debug=True))
+    got = run(lambda: glom(t, Assign(path, v) if op == 0 else Delete(path, ignore_missing=(op == 2)), glom_debug=True))
     reach('star_mutate')
+    if op == 2 and len(leaves) > 1:
+        reach('star_mutate_holes')
     if not leaves:
         reach('star_mutate_none')
     if got.kind != 'ok' or got.value is not t:
         return fail(why='a wildcard Assign/Delete over these entries must succeed (no entry: no-op)', got=got, n=len(leaves))
-    for lf, b in zip(leaves, before):
-        if op == 0:
+    for i, (lf, b) in enumerate(zip(leaves, before)):
+        if i in holes:
+            ok = (lf == b) if final != 2 else (lf.keep == b.keep and not hasattr(lf, 'v'))
+        elif op == 0:
             ok = (lf['v'] == v and lf['keep'] == b['keep']) if final == 0 else ((lf[0] == v and lf[1:] == b[1:]) if final == 1 else (lf.v == v and lf.keep == b.keep))
         elif final == 0:
             ok = 'v' not in lf and lf.get('keep') == b['keep']
@@ -359,9 +395,10 @@ def obligations(tier):
                                   name='star4_%s_%d_%d' % (SHAPES[shape], c0, c1)))
     obs.append(Ob(star_off, fixed={'shape': 0, 'c0': 0}, name='star_off'))
     wp = '0 <= final <= 2 and 0 <= style <= 2 and 0 <= s0 <= 2 and 0 <= s1 <= 2 and 0 <= s2 <= 2'
-    for op in (0, 1):
+    for op in (0, 1, 2):
         for nw in (1, 2, 3):
-            obs.append(Ob(star_mutate, fixed={'op': op, 'nw': nw}, pre=wp, name='star_mutate_%s_w%d' % (['assign', 'delete'][op], nw), timeout=200))
+            obs.append(Ob(star_mutate, fixed={'op': op, 'nw': nw}, pre=wp, name='star_mutate_%s_w%d' % (['assign', 'delete', 'delete_ignore'][op], nw), timeout=200))
+    obs.append(Ob(star_mutate, fixed={'op': 2, 'nw': 2}, pre=wp, twin='star_mutate_holes', name='star_mutate_delete_ignore_w2'))
     obs.append(Ob(star_mutate, fixed={'op': 0, 'nw': 2}, pre=wp, twin='star_mutate_none', name='star_mutate_assign_w2'))
     obs.append(Ob(star2, fixed={'shape': 3, 'spelling': 0}, pre='0 <= c0 < %d and 0 <= c1 < %d' % (NSEG, NSEG), twin='star2', name='star2_twocycle'))
     obs.append(Ob(star2, fixed={'shape': 3, 'spelling': 0}, pre='0 <= c0 < %d and 0 <= c1 < %d' % (NSEG, NSEG), twin='star_many', name='star2_twocycle'))
